@@ -22,7 +22,7 @@ std::vector uses the allocator (element survival across reallocation).
 """
 import re
 
-from rkstatic.x_expr import INF, Poly
+from rkstatic.x_expr import INF, Poly, Rel
 from rkstatic.x_valueflow import Flow, is_assert_path, show_val, strip_site
 
 LEVEL = 'other'
@@ -97,10 +97,28 @@ def report(ctx, p, rule, inst, why, loc, key):
 # ================================================================================================
 #  R-C14-1
 # ================================================================================================
+def ev_result_bounds(p, e):
+    """bounds of the value returned by the call of event e on path p (matched by callee and arguments)"""
+    for k, v in p.state.d.items():
+        if isinstance(k, tuple) and k[0] == 'fact' and isinstance(k[1], tuple) and k[1] and k[1][0] == 'call' \
+                and k[1][1] == e[1] and k[1][3] == e[3]:
+            return v
+    return None
+
+
+def persistent(loc):
+    """a memory location that outlives the call: a global / static / thread_local or a data member of one"""
+    while isinstance(loc, tuple) and loc and loc[0] == 'field':
+        loc = loc[1]
+    return isinstance(loc, tuple) and bool(loc) and loc[0] == 'glob'
+
+
+USABLE_SIZE = ('scalable_msize', 'malloc_usable_size', '_msize', '_aligned_msize', 'malloc_size')
+
+
 def check_malloc_cpp(ctx, tu, tag, keytag):
     R = 'R-C14-1'
     n = 0
-    fam_used = None
     fs = [f for f in tu.fns(q=AM, dep=False) if tu.cfg(f) is not None and not f.get('targs') and len(f['params']) == 2]
     gs = [f for f in tu.fns(q=AF, dep=False) if tu.cfg(f) is not None and len(f['params']) == 1]
     if len(fs) != 1 or len(gs) != 1:
@@ -110,13 +128,16 @@ def check_malloc_cpp(ctx, tu, tag, keytag):
     file = tu.fn_file(f)
     inst = 'alignedMalloc [%s]' % tag
     key = '%s|%s|alignedMalloc|%s:' % (R, file, keytag)
-    paths = analyse(ctx, R, inst, tu, f)
-    n += 1
-    if paths is not None:
+    mpaths = analyse(ctx, R, inst, tu, f)
+    gpaths = analyse(ctx, R, 'alignedFree [%s]' % tag, tu, g)
+    n += 2
+    producers = {}          # allocation primitive -> (location of the call, description of the path)
+    reuse = {}              # persistent cell whose content alignedMalloc hands out again -> path
+    malloc_decided = mpaths is not None
+    if mpaths is not None:
         size, align = params(f)
         bad = False
-        allocating = 0
-        for p in paths:
+        for p in mpaths:
             if p.kind != 'return':
                 ctx.undecided(R, inst, 'a path does not return (throws or aborts)', tu.fn_loc(f))
                 bad = True
@@ -128,29 +149,51 @@ def check_malloc_cpp(ctx, tu, tag, keytag):
                        wrong[0][4], key + 'unaligned-allocator')
                 continue
             al = p.calls(lambda q: bare(q) in FAMILIES)
-            if not al:
-                if p.ret is not None and p.ret.as_int() == 0:
-                    continue        # returning null is allowed by the contract
+            ret = strip_site(p.ret) if p.ret is not None else None
+            if p.ret is None:
                 bad = True
-                ctx.undecided(R, inst, 'a path returns %s without calling a known aligned allocation primitive' % show_val(p.ret),
-                              tu.fn_loc(f))
+                ctx.undecided(R, inst, 'a path returns no value', tu.fn_loc(f))
                 continue
-            if len(al) > 1:
-                bad = True
-                ctx.undecided(R, inst, 'several allocation calls on one path', al[1][4])
+            # ---- which allocation produced the returned pointer?
+            prod = None
+            if isinstance(ret, tuple) and ret and ret[0] == 'call' and bare(ret[1]) in FAMILIES and 'out' not in FAMILIES[bare(ret[1])]:
+                prod = next((e for e in al if e[1] == ret[1] and tuple(strip_site(a) for a in e[3]) == ret[3]), None) or \
+                    next((e for e in al if e[1] == ret[1]), None)
+            elif isinstance(ret, tuple) and ret and ret[0] == 'out' and bare(ret[1]) in FAMILIES and \
+                    FAMILIES[bare(ret[1])].get('out') == ret[2]:
+                prod = next((e for e in al if e[1] == ret[1]), None)
+            is_null = p.ret.as_int() == 0
+            if prod is None and not is_null:
+                # neither a fresh block nor null: a block kept from an earlier release is handed out again
+                v = check_reuse(ctx, R, inst, key, tu, f, p, size, align, gpaths, reuse)
+                bad = bad or not v
                 continue
-            e = al[0]
-            allocating += 1
-            q = bare(e[1])
+            # ---- every other allocation on the path must have failed (else its block is dropped)
+            for e in al:
+                if e is prod:
+                    continue
+                fam = FAMILIES[bare(e[1])]
+                rb = ev_result_bounds(p, e)
+                failed = rb is not None and ((rb[0] == rb[1] == 0) if 'out' not in fam else (rb[0] > 0 or rb[1] < 0))
+                if not failed:
+                    bad = True
+                    if 'out' in fam and rb is not None and rb[0] == rb[1] == 0 and is_null:
+                        report(ctx, p, R, inst, 'on success of %s the function returns %s, required: the pointer it stored'
+                               % (bare(e[1]), show_val(p.ret)), tu.fn_loc(f), key + 'result-not-returned')
+                    elif 'out' in fam and rb is None:
+                        ctx.undecided(R, inst, 'the status of %s is not tested on this path' % bare(e[1]), e[4])
+                    else:
+                        ctx.undecided(R, inst, 'the block obtained from %s at %s is not the value returned (%s) and is not known to be null'
+                                      % (bare(e[1]), e[4], show_val(p.ret)), e[4])
+            if prod is None:
+                if not al:
+                    pass        # returning null without allocating is allowed by the contract
+                continue
+            q = bare(prod[1])
             fam = FAMILIES[q]
-            args = e[3]
-            if fam_used is None:
-                fam_used = q
-            elif fam_used != q:
-                ctx.undecided(R, inst, 'different allocation primitives on different paths (%s, %s)' % (fam_used, q), e[4])
-                bad = True
+            args = prod[3]
             if len(args) <= max(fam['size'], fam['align']):
-                ctx.undecided(R, inst, 'unexpected argument list of %s' % q, e[4])
+                ctx.undecided(R, inst, 'unexpected argument list of %s' % q, prod[4])
                 bad = True
                 continue
             sa, aa = args[fam['size']], args[fam['align']]
@@ -158,90 +201,192 @@ def check_malloc_cpp(ctx, tu, tag, keytag):
                 bad = True
                 if sa == align and aa == size:
                     report(ctx, p, R, inst, '%s receives (size, align) in swapped positions: size argument is `%s`, alignment '
-                           'argument is `%s`' % (q, show_val(sa), show_val(aa)), e[4], key + 'arguments-swapped')
+                           'argument is `%s`' % (q, show_val(sa), show_val(aa)), prod[4], key + 'arguments-swapped')
                 elif only_params(sa, [size, align]) and only_params(aa, [size, align]):
                     report(ctx, p, R, inst, '%s receives size `%s` and alignment `%s`; required: the caller\'s size and align unchanged'
-                           % (q, show_val(sa), show_val(aa)), e[4], key + 'arguments-not-passed-through')
+                           % (q, show_val(sa), show_val(aa)), prod[4], key + 'arguments-not-passed-through')
                 else:
                     ctx.undecided(R, inst, '%s receives size `%s` and alignment `%s`; cannot relate them to the parameters'
-                                  % (q, show_val(sa), show_val(aa)), e[4])
+                                  % (q, show_val(sa), show_val(aa)), prod[4])
                 continue
-            # the result
-            ret = strip_site(p.ret) if p.ret is not None else None
             if 'out' in fam:
-                callatom = [a for a in (Poly.atom(x) for x in ())]  # placeholder, see below
-                rc_lo, rc_hi = result_bounds(p, e)
-                success = (rc_lo == 0 and rc_hi == 0)
-                if success:
-                    if not (isinstance(ret, tuple) and ret[0] == 'out' and ret[1] == e[1] and ret[2] == fam['out']):
-                        bad = True
-                        report(ctx, p, R, inst, 'on success of %s the function returns %s, required: the pointer it stored'
-                               % (q, show_val(p.ret)), tu.fn_loc(f), key + 'result-not-returned')
-                elif rc_lo <= 0 <= rc_hi:
+                rb = ev_result_bounds(p, prod)
+                if rb is None or not (rb[0] == rb[1] == 0):
                     bad = True
-                    ctx.undecided(R, inst, 'the status of %s is not tested on this path' % q, e[4])
-                elif p.ret is None or p.ret.as_int() != 0:
-                    bad = True
-                    report(ctx, p, R, inst, 'on failure of %s the function returns %s, required: null' % (q, show_val(p.ret)),
-                           tu.fn_loc(f), key + 'failure-not-null')
-            else:
-                if not (isinstance(ret, tuple) and ret[0] == 'call' and ret[1] == e[1]) and not (p.ret is not None and p.ret.as_int() == 0):
-                    bad = True
-                    if p.ret is not None and only_params(p.ret, [size, align]):
-                        report(ctx, p, R, inst, 'the function returns %s instead of the block obtained from %s' % (show_val(p.ret), q),
-                               tu.fn_loc(f), key + 'result-not-returned')
+                    if rb is None or rb[0] <= 0 <= rb[1]:
+                        ctx.undecided(R, inst, 'the status of %s is not tested on this path' % q, prod[4])
                     else:
-                        ctx.undecided(R, inst, 'the function returns %s; cannot relate it to the result of %s' % (show_val(p.ret), q),
-                                      tu.fn_loc(f))
-        if not bad and allocating:
-            ctx.ok(R, inst, '%s(size, align) in the right positions, result returned' % fam_used, tu.fn_loc(f))
+                        report(ctx, p, R, inst, 'on failure of %s the function returns %s, required: null' % (q, show_val(p.ret)),
+                               tu.fn_loc(f), key + 'failure-not-null')
+                    continue
+            others = [bare(e[1]) for e in al if e is not prod]
+            producers.setdefault(q, (prod[4], 'after %s returned null' % ', '.join(others) if others else ''))
+        if not bad and producers:
+            ctx.ok(R, inst, '%s(size, align) in the right positions, result returned%s'
+                   % (' / '.join(sorted(producers)), '; blocks kept by alignedFree are handed out again only if they fit size and '
+                      'align' if any(not (isinstance(c, tuple) and c[0] == 'attempted') for c in reuse) else ''), tu.fn_loc(f))
         elif not bad:
             ctx.undecided(R, inst, 'no path allocates', tu.fn_loc(f))
+        malloc_decided = not bad
     # ---- alignedFree
     inst = 'alignedFree [%s]' % tag
     key = '%s|%s|alignedFree|%s:' % (R, file, keytag)
-    paths = analyse(ctx, R, inst, tu, g)
-    n += 1
-    if paths is not None:
+    if gpaths is not None:
         ptr = params(g)[0]
+        pa = ptr.as_atom()
         bad = False
-        for p in paths:
+        releases = set()
+        for p in gpaths:
             if p.kind != 'return':
                 ctx.undecided(R, inst, 'a path does not return', tu.fn_loc(g))
                 bad = True
                 continue
+            lo, hi = p.bounds(pa)
+            if hi == 0:
+                continue     # nothing to release for a null pointer
             fr = p.calls(lambda q: bare(q) in FREES)
-            if not fr:
-                lo, hi = p.bounds(ptr.as_atom())
-                if hi == 0:
-                    continue     # nothing to release for a null pointer
+            kept = [loc for loc, v in p.stores().items() if v == ptr and persistent(loc)]
+            own = [e for e in fr if e[3] and e[3][0] == ptr]
+            evict = [e for e in fr if e[3] and isinstance(e[3][0], Poly) and e[3][0].as_atom() in kept]
+            rest = [e for e in fr if e not in own and e not in evict]
+            for e in fr:
+                releases.add((bare(e[1]), e[4]))
+            if rest:
                 bad = True
-                report(ctx, p, R, inst, 'a path returns without releasing the block (no release primitive called)', tu.fn_loc(g),
-                       key + 'not-released')
-                continue
-            if len(fr) > 1:
-                bad = True
-                report(ctx, p, R, inst, 'the block is released twice on one path (%s, %s)' % (fr[0][1], fr[1][1]), fr[1][4],
-                       key + 'released-twice')
-                continue
-            e = fr[0]
-            q = bare(e[1])
-            if fam_used is not None and FAMILIES[fam_used]['free'] != q:
-                bad = True
-                report(ctx, p, R, inst, 'blocks are allocated with %s but released with %s; required: %s'
-                       % (fam_used, q, FAMILIES[fam_used]['free']), e[4], key + 'family-mismatch')
-                continue
-            if not e[3] or e[3][0] != ptr:
-                bad = True
+                e = rest[0]
                 if e[3] and only_params(e[3][0], [ptr]):
-                    report(ctx, p, R, inst, '%s receives `%s` instead of the pointer passed in' % (q, show_val(e[3][0])), e[4],
+                    report(ctx, p, R, inst, '%s receives `%s` instead of the pointer passed in' % (bare(e[1]), show_val(e[3][0])), e[4],
                            key + 'pointer-not-passed-through')
                 else:
-                    ctx.undecided(R, inst, '%s receives `%s`' % (q, show_val(e[3][0]) if e[3] else 'nothing'), e[4])
+                    ctx.undecided(R, inst, '%s receives `%s`' % (bare(e[1]), show_val(e[3][0]) if e[3] else 'nothing'), e[4])
+                continue
+            if len(own) > 1:
+                bad = True
+                report(ctx, p, R, inst, 'the block is released twice on one path (%s, %s)' % (own[0][1], own[1][1]), own[1][4],
+                       key + 'released-twice')
+                continue
+            if own and kept:
+                bad = True
+                ctx.undecided(R, inst, 'the block is released and also kept in `%s`' % show_val(Poly.atom(kept[0])), own[0][4])
+                continue
+            if not own and not kept:
+                bad = True
+                report(ctx, p, R, inst, 'a path returns without releasing the block (no release primitive called, block not kept)',
+                       tu.fn_loc(g), key + 'not-released')
+                continue
+            if kept:
+                # the block is kept for reuse: sound only if alignedMalloc hands exactly this cell out again (checked there)
+                if any(('attempted', c) in reuse and c not in reuse for c in kept):
+                    bad = True          # the reuse of this cell was already reported at alignedMalloc
+                    continue
+                if not all(c in reuse for c in kept):
+                    bad = True
+                    report(ctx, p, R, inst, 'the block is stored in `%s` instead of being released, and alignedMalloc never hands that '
+                           'cell out again: it is never released' % show_val(Poly.atom(kept[0])), tu.fn_loc(g), key + 'not-released')
+                    continue
+        # family agreement: every primitive that can produce a returned pointer must be matched by the release used
+        rel_names = sorted({r for r, _ in releases})
+        for q, (where, how) in sorted(producers.items()):
+            want = FAMILIES[q]['free']
+            for r in rel_names:
+                if r != want:
+                    bad = True
+                    loc = next(l for rr, l in releases if rr == r)
+                    if len(rel_names) == 1:
+                        ctx.violation(R, inst, 'a block that alignedMalloc obtained from %s (%s%s) is released with %s; required: %s'
+                                      % (q, where, ', ' + how if how else '', r, want), loc, key=key + 'family-mismatch')
+                    else:
+                        ctx.undecided(R, inst, 'alignedFree uses several release primitives (%s); cannot tell which one receives the blocks '
+                                      'of %s' % (', '.join(rel_names), q), loc)
+        if not rel_names and not bad and malloc_decided:
+            bad = True
+            ctx.undecided(R, inst, 'no release primitive is called on any path', tu.fn_loc(g))
         if not bad:
-            ctx.ok(R, inst, '%s(ptr), the release primitive of %s' % (FAMILIES[fam_used]['free'] if fam_used else '?', fam_used),
+            ctx.ok(R, inst, '%s(ptr), the release primitive of %s' % (' / '.join(rel_names), ' / '.join(sorted(producers)) or '?'),
                    tu.fn_loc(g))
     return n
+
+
+def check_reuse(ctx, R, inst, key, tu, f, p, size, align, gpaths, reuse):
+    """A path of alignedMalloc returns a pointer V that no allocation primitive produced on this path (a block kept by an earlier
+    alignedFree).  Required: V comes from a persistent cell that alignedFree fills with released blocks and that is emptied when
+    the block is handed out; the path carries the fact V % align == 0 (an alignment test against a constant c only counts if
+    align <= c on the path); and size <= usable size recorded together with the block.  -> True if the path is fine."""
+    V = unconv(p.ret)
+    va = V.as_atom() if isinstance(V, Poly) else None
+    aname = align.as_atom()[1]
+    if not (isinstance(va, tuple) and va and va[0] in ('field', 'glob') and persistent(va)):
+        ctx.undecided(R, inst, 'a path returns %s, which is neither null nor the result of an aligned allocation primitive'
+                      % show_val(p.ret), tu.fn_loc(f))
+        return False
+    cell = va
+    reuse.setdefault(('attempted', cell), p)
+    relevant_approx = [a for a in p.approx if re.search(r'\b%s\b' % re.escape(str(aname)), a)]
+    # the alignment facts the path carries about V
+    tests = []
+    for k, v in p.state.d.items():
+        if isinstance(k, tuple) and k[0] == 'fact' and isinstance(k[1], tuple) and k[1] and k[1][0] == 'mod' and len(k[1]) == 3 \
+                and v == (0, 0) and unconv(k[1][1]) == V:
+            tests.append(unconv(k[1][2]))
+    alo, ahi = p.bounds(align.as_atom())
+    aligned = False
+    consts = []
+    for d in tests:
+        if d == align:
+            aligned = True
+        elif isinstance(d, Poly) and d.as_int() is not None:
+            c = d.as_int()
+            consts.append(c)
+            if c > 0 and (c & (c - 1)) == 0 and ahi <= c:
+                aligned = True      # align is a power of two not larger than the power of two c
+    where = show_val(Poly.atom(cell))
+    if not aligned:
+        if relevant_approx:
+            ctx.undecided(R, inst, 'a kept block (`%s`) is handed out again; its alignment against `%s` is decided by a condition the '
+                          'analysis could not follow: %s' % (where, aname, relevant_approx[0]), tu.fn_loc(f))
+        elif consts:
+            ctx.violation(R, inst, 'the block kept in `%s` is handed out again after testing its alignment against the constant %d '
+                          '(isAligned without the requested alignment), not against `%s`: for %s > %d the returned pointer is only '
+                          '%d-byte aligned, not a multiple of the requested alignment' % (where, consts[0], aname, aname, consts[0], consts[0]),
+                          tu.fn_loc(f), key=key + 'reused-block-alignment-not-checked')
+        elif not tests:
+            ctx.violation(R, inst, 'the block kept in `%s` is handed out again without any test of its alignment against `%s`: it was '
+                          'allocated for whatever alignment its previous owner asked for' % (where, aname), tu.fn_loc(f),
+                          key=key + 'reused-block-alignment-not-checked')
+        else:
+            ctx.undecided(R, inst, 'a kept block (`%s`) is handed out again after an alignment test against %s; cannot relate it to `%s`'
+                          % (where, ', '.join(show_val(t) for t in tests), aname), tu.fn_loc(f))
+        return False
+    # handed out => removed from the cache
+    after = p.mem(cell)
+    if after is None or after.as_int() != 0:
+        ctx.violation(R, inst, 'the block kept in `%s` is handed out but stays in the cache (`%s` is not cleared): the same block will be '
+                      'handed out or released again' % (where, where), tu.fn_loc(f), key=key + 'reused-block-not-removed')
+        return False
+    # extent: size <= usable size recorded by alignedFree together with the pointer
+    fits = False
+    why = 'alignedFree does not record a usable size next to the kept pointer'
+    for gp in (gpaths or []):
+        st = gp.stores()
+        if gp.kind != 'return' or cell not in st:
+            continue
+        pv = st[cell]
+        for loc2, v2 in st.items():
+            sv = strip_site(v2)
+            if loc2 != cell and loc2[0] == 'field' and cell[0] == 'field' and loc2[1] == cell[1] and isinstance(sv, tuple) and sv and \
+                    sv[0] == 'call' and bare(sv[1]) in USABLE_SIZE and sv[3] and strip_site(sv[3][0]) == strip_site(pv):
+                rel = Rel.make(Poly.atom(loc2), '>=', size)
+                if p.state.get(('pc', rel)):
+                    fits = True
+                else:
+                    why = 'the path does not carry `%s <= %s`' % (show_val(size), show_val(Poly.atom(loc2)))
+    if not fits:
+        ctx.undecided(R, inst, 'a kept block (`%s`) is handed out again (alignment tested against `%s`); its extent is not decided: %s'
+                      % (where, aname, why), tu.fn_loc(f))
+        return False
+    reuse[cell] = p
+    ctx.assume('a block-retention slot in malloc.cpp is written only by alignedMalloc/alignedFree and its own destructor')
+    return True
 
 
 def result_bounds(p, ev):
@@ -474,15 +619,16 @@ def check_allocate_paths(ctx, R, inst, key, tu, f, paths, sz, A, M):
             continue
         e = allocs[0]
         sa, aa = e[3][0], e[3][1] if len(e[3]) > 1 else None
-        if wraps:
-            bad = True
-            report(ctx, p, R, inst, 'for n in %s the unsigned expression `%s` can wrap' % (rng(lo, hi), wraps[0][1]), wraps[0][2],
-                   key + 'size-product-can-wrap')
         verdict, why = size_covers(sa, N, sz, lo, hi, p)
         if verdict is False:
             bad = True
             report(ctx, p, R, inst, 'alignedMalloc is asked for `%s` bytes, required: at least n * sizeof(T) = %s; %s'
                    % (show_val(sa), want_size.show(), why[1]), e[4], key + why[0])
+        if wraps:
+            bad = True
+            report(ctx, p, R, inst, 'for n in %s the unsigned expression `%s` can wrap' % (rng(lo, hi), wraps[0][1]), wraps[0][2],
+                   key + 'size-product-can-wrap')
+        if verdict is False:
             continue
         if verdict is None:
             bad = True
